@@ -45,17 +45,34 @@ def optKey (o : RaRfc.Opt) : String := toString (repr o)
 
 def sortOpts (l : List RaRfc.Opt) : List String := ((l.map optKey).toArray.qsort (· < ·)).toList
 
+/-- can one option carry the value? (the oracle's own arithmetic: a DNSSL name takes its labels, a length octet each,
+    and a terminating zero; the option has 8 octets of header and at most 255 units of eight) -/
+def representable : RaRfc.Opt → Bool
+  | .dnssl _ ds => (ds.map fun labels => (labels.map (·.length + 1)).sum + 1).sum ≤ 2032
+  | .captivePortal url => !url.contains 0 && url.length ≤ 2038
+  | _ => true
+
+/-- RDNSS options with the same lifetime read as one list (RFC 8106 §5.1 allows several options) -/
+def mergeRdnss (l : List RaRfc.Opt) : List RaRfc.Opt :=
+  let rd := l.filterMap fun o => match o with | .rdnss lt s => some (lt, s) | _ => none
+  let rest := l.filter fun o => match o with | .rdnss .. => false | _ => true
+  match rd with
+  | [] => rest
+  | (lt, _) :: _ => if rd.all (·.1 == lt) then rest ++ [.rdnss lt (rd.flatMap (·.2))] else l
+
 /-- `ra cfg=<hex yaml> ifn=<n> ll=<hex|n> ifmtu=<n|n> self6=<n> dl=<n> => top=<…> intf=<…> mtu=<n|n> wire=<hex>` -/
 def judge (inp obs : List String) : Verdict :=
   if obs == ["cfgerr"] then { corr := "agree", spec := "na" } else
   if (obs.headD "").startsWith "panic" then
-    { corr := "differ:impl-panic", spec := s!"unsat:C19.accepted_config_safe:ra-{if ((obs.headD "").splitOn "subtract").length > 1 then "pref64-length<32" else "serialise-panic"}" } else
+    { corr := "differ:impl-panic", spec := s!"unsat:C19.accepted_config_safe:ra-{if ((obs.headD "").splitOn "subtract").length > 1 then "pref64-length<32" else "serialise-panic"};unsat:C17.rejected_or_clamped:panic-instead" } else
   match (kv obs "top").bind parseTop, (kv obs "intf").bind parseIntf, kv obs "mtu", getHex obs "wire", kv inp "ll", getNat inp "self6", getNat inp "dl" with
   | some top, some intf, some mtuS, some wire, some llS, some self6, some dl =>
     let ll := if llS = "n" then none else fromHex llS
     let mtu := if mtuS = "n" then none else mtuS.toNat?
     let m := serialise (build top intf ll mtu self6 dl)
-    let exp := RaRfc.expected top intf ll mtu self6 dl
+    let exp0 := RaRfc.expected top intf ll mtu self6 dl
+    -- a value one option cannot carry may be left out (never wrapped); more than 127 servers come in several options
+    let exp := { exp0 with options := mergeRdnss (exp0.options.filter representable) }
     let spec :=
       (if wire.length % 8 != 0 then ["unsat:C17.multiple_of_8:message-length"] else []) ++
       (match RaRfc.decode wire with
@@ -67,8 +84,8 @@ def judge (inp obs : List String) : Verdict :=
          (if d.hopLimit != exp.hopLimit || d.managed != exp.managed || d.other != exp.other then ["unsat:C17.header:hop-or-flags"] else []) ++
          (if d.lifetime != exp.lifetime then [s!"unsat:C17.router_lifetime:{if exp.lifetime == 65535 then "wrapped" else "differs"}"] else []) ++
          (if d.reachableMs != exp.reachableMs || d.retransMs != exp.retransMs then ["unsat:C17.timers:reachable-retrans"] else []) ++
-         (if sortOpts d.options != sortOpts exp.options then
-            let bad := (sortOpts exp.options).filter (fun k => !(sortOpts d.options).contains k)
+         (if sortOpts (mergeRdnss d.options) != sortOpts exp.options then
+            let bad := (sortOpts exp.options).filter (fun k => !(sortOpts (mergeRdnss d.options)).contains k)
             let kind := match bad.head? with
               | some k => ((k.splitOn " ").getD 0 "?").replace "Erbium.RaRfc.Opt." ""
               | none => "extra-option"
